@@ -41,6 +41,18 @@ for meta in sorted(glob.glob(V+'/seeded/*/*/meta.json')):
         jobs.append((name,{os.path.join(REPO,f):open(os.path.join(tmp,f)).read() for f in files},''))
     finally:
         shutil.rmtree(tmp,ignore_errors=True)
+# negative controls: behaviour-preserving edits must keep this property's check silent
+import benign
+bjobs=[]
+for name,edits in benign.B.items():
+    ov={}; ok=True
+    for f,a,b in edits:
+        p=os.path.join(REPO,f)
+        try: s0=ov.get(p) or open(p).read()
+        except Exception: ok=False; break
+        if s0.count(a)!=1: ok=False; break
+        ov[p]=s0.replace(a,b)
+    bjobs.append(('benign:'+name,ov if ok else None,'' if ok else 'stale: find does not match once'))
 def run(job):
     name,ov,why=job
     if ov is None: return name,'stale',why
@@ -56,6 +68,12 @@ def run(job):
 res=[]
 with cf.ThreadPoolExecutor(6) as ex:
     for x in ex.map(run,jobs): res.append(x)
+bres=[]
+with cf.ThreadPoolExecutor(6) as ex:
+    for x in ex.map(run,bjobs): bres.append(x)
+bsilent=[x for x in bres if x[1]=='missed']; balarm=[x for x in bres if x[1]=='detected']
+print("%s negative controls: %d behaviour-preserving variants, %d silent, %d FALSE ALARMS"%(prop,len(bres),len(bsilent),len(balarm)))
+for x in balarm: print("  FALSE ALARM on behaviour-preserving edit:",x[0],x[2])
 det=[x for x in res if x[1]=='detected']; missed=[x for x in res if x[1]=='missed']; stale=[x for x in res if x[1] in('stale','does-not-compile')]
 print("%s sweep: %d variants, %d detected, %d missed, %d stale"%(prop,len(res),len(det),len(missed),len(stale)))
 for x in missed: print("  MISSED (not an alarm; recorded in evidence):",x[0])
@@ -65,6 +83,7 @@ try:
     ev=json.load(open(ev_path))
     ev['coverage'].update({'mutants_total':len(res),'mutants_detected':len(det),'mutants_missed':[x[0] for x in missed],'mutants_stale':[x[0]+' ('+x[2]+')' for x in stale],
        'mutants':[{'variant':x[0],'result':x[1],'rules_fired':x[2]} for x in res],
+       'benign_total':len(bres),'benign_silent':len(bsilent),'benign_false_alarms':[x[0]+' ('+x[2]+')' for x in balarm],
        'mutant_rule':'each variant is the current tree of /repo with one breaking edit applied in memory (find/replace from mutants/mutants.py, or a stored sub-agent change from seeded/); detected = the property check exits 1 on the variant'})
     ev['wall_s']=round(time.time()-t0,1)
     json.dump(ev,open(ev_path,'w'),indent=1)
